@@ -31,7 +31,7 @@ def one(sid, tier):
         if a.returncode:
             alt = os.path.join(d, "patch.rebased.diff")
             if os.path.exists(alt):
-                sh(["git", "-C", wt, "checkout", "--", "."])
+                sh(["git", "-C", wt, "reset", "--hard", "-q"])
                 a = sh(["git", "-C", wt, "apply", alt])
                 how = "rebased"
         if a.returncode:
